@@ -7,6 +7,7 @@
 import PandoraModel.Model.Cbca
 import PandoraModel.Model.PyLoops
 import PandoraModel.Generated.KernelsCbca
+import PandoraModel.Generated.KernelsLoopsSelfTest  -- the translator's own test kernels, checked by evaluation
 import PandoraModel.Generated.Cbca
 import PandoraModel.Properties.C11
 import Mathlib.Tactic.Linarith
